@@ -120,7 +120,27 @@ pub fn inject_op(w: &Rc<World>, dst_p: u32, port: u8, generator: &InjectGen, del
     };
     let bytes: Option<Vec<u8>> = match generator {
         InjectGen::Raw { hex } => Some(unhex(hex)),
-        InjectGen::Mutate { class, nth, muts } => crate::hostile2::mutate(node, *class, *nth, muts),
+        InjectGen::Mutate { class, nth, muts, foreign } => crate::hostile2::mutate(node, *class, *nth, muts).map(|mut b| {
+            if *foreign && b.len() >= 20 {
+                b[8..20].copy_from_slice(&foreign_prefix(98));
+                // the payload of captured discovery data carries the identity of a real participant too: an attacker
+                // that does not forge must not claim it. All simulated participants share the first 8 prefix bytes.
+                let own = w.st.borrow().participants.values().next().map(|x| crate::world::hd(x.0.get_instance_handle()));
+                if let Some(own) = own {
+                    let mut i = 20;
+                    while i + 8 <= b.len() {
+                        if b[i..i + 8] == own[..8] {
+                            b[i] = 0xF0;
+                            i += 8;
+                        } else {
+                            i += 1;
+                        }
+                    }
+                }
+            }
+            b
+        }),
+        InjectGen::Fresh { class, nth, sn_off, muts } => crate::hostile2::fresh(*class, *nth, *sn_off, muts),
         InjectGen::Craft { kind, spoof_p, a, b, c, d } => crate::hostile2::craft(w, node, kind, *spoof_p, *a, *b, *c, *d),
     };
     match bytes {
